@@ -9,8 +9,8 @@
     a finished thread, or of an id that names no thread, does nothing.
 
     Modelled here:
-      * route/picker.go:26-30 rrPicker        (torn: plain read, then atomic add;
-                                               and the fetch-and-add variant)
+      * route/picker.go rrPicker             (one fetch-and-add per pick; the torn picker
+                                               before fix 633ec31 as [rr_step_unrepaired])
       * route/table.go:424-433 + route/target.go:72-124 + proxy/http_proxy.go:136-142
                                                the redirect URL kept on the SHARED target
       * a lookup with its shared effects made explicit ([lookup], for
@@ -48,10 +48,15 @@ Fixpoint serial (k : nat) (from n : nat) : list nat :=
   end.
 
 (* ---------------------------------------------------------------- rrPicker *)
-(* func rrPicker(r *Route) *Target {
-       u := r.wTargets[r.total%uint64(len(r.wTargets))]   // plain read of r.total
-       atomic.AddUint64(&r.total, 1)                      // atomic read-modify-write
-       return u }
+(* The code as it is (after fix commit 633ec31 "round-robin picker reads its cursor outside the
+   atomic increment"), [rr_step_atomic]:
+     func rrPicker(r *Route) *Target {
+         n := atomic.AddUint64(&r.total, 1) - 1             // ONE fetch-and-add per pick
+         return r.wTargets[n%uint64(len(r.wTargets))] }
+   The code before the fix, [rr_step_unrepaired] (kept for the refutation theorem):
+         u := r.wTargets[r.total%uint64(len(r.wTargets))]   // plain read of r.total
+         atomic.AddUint64(&r.total, 1)                      // atomic read-modify-write
+         return u
    Shared state: the cursor r.total (uint64).  A thread performs [rr_todo] picks and
    records the cursor value each pick indexed the ring with. *)
 Definition two64 : N := 18446744073709551616.
@@ -62,8 +67,8 @@ Record rr_local := { rr_at : rr_pc; rr_todo : nat; rr_reg : N; rr_seen : list N 
 Definition rr_init (picks : nat) : rr_local :=
   {| rr_at := match picks with O => RDone | S _ => RRead end; rr_todo := picks; rr_reg := 0%N; rr_seen := [] |}.
 
-(* the code as written: [read total] [compute the index - local] [atomic add] *)
-Definition rr_step_torn (total : N) (l : rr_local) : N * rr_local :=
+(* before 633ec31: [read total] [compute the index - local] [atomic add] *)
+Definition rr_step_unrepaired (total : N) (l : rr_local) : N * rr_local :=
   match rr_at l with
   | RRead => (total, {| rr_at := RIndex; rr_todo := rr_todo l; rr_reg := total; rr_seen := rr_seen l |})
   | RIndex => (total, {| rr_at := RAdd; rr_todo := rr_todo l; rr_reg := rr_reg l; rr_seen := rr_seen l ++ [rr_reg l] |})
@@ -75,8 +80,7 @@ Definition rr_step_torn (total : N) (l : rr_local) : N * rr_local :=
   | RDone => (total, l)
   end.
 
-(* the variant the property needs: the pick uses the value the atomic add returns
-   (one fetch-and-add per pick) *)
+(* the code as it is: the pick uses the value the atomic add returns (one fetch-and-add per pick) *)
 Definition rr_step_atomic (total : N) (l : rr_local) : N * rr_local :=
   match rr_todo l with
   | O => (total, l)
